@@ -35,6 +35,11 @@ def main():
     assert P.nf((c * c + s * s - 1).n).is_zero()
     print("engine ok")
     try:
+        from gsv.selftest import engine_vs_sympy
+        ok = engine_vs_sympy.main() and ok
+    except ImportError as e:
+        print("engine-vs-sympy test skipped (sympy not importable here):", e)
+    try:
         from gsv.selftest import shim_fidelity
         ok = shim_fidelity.main() and ok
     except ImportError as e:
